@@ -36,6 +36,27 @@ RecSets(f) ==
   {<<Rec(CpuOf(f), s, n, G)>> : s \in Starts, n \in UnitLens, G \in GG}
   \cup {<<Rec(CpuOf(f), s, n, G), Rec(CpuOf(f), s + n + 2, 3, G)>> : s \in Starts, n \in {SetMax(UnitLens)}, G \in GG}
 
+\* ---- record files placed RELATIVE TO A BOUNDARY: record 1 ends exactly on (d = 0), one before (d = -1) or one after
+\*      (d = 1) a 64 KiB (Intel-32 bank, S1/S2), 1 MiB (Intel-16 reach) or 16 MiB (S2/S3) boundary - in address units and,
+\*      for granularity > 1, also in bytes - and the following record(s) lie in the same bank, the next bank, a lower bank
+Bounds == {65536, 1048576, 16777216}
+Deltas == IF Full THEN {-1, 0, 1} ELSE {0}
+BN == SetMax(UnitLens)
+BoundarySets(f) ==
+  LET GG == IF f \in {"ATMEL", "DSK"} THEN {2} ELSE Grans
+      R(s, n, G) == Rec(CpuOf(f), s, n, G)
+  IN UNION {UNION {UNION {
+       LET e == BB + d                 \* first address after record 1
+           r1 == R(e - BN, BN, G)
+           same == R(e - 2 * BN - 3, BN, G)        \* below record 1, same bank
+           next == R(BB + 16, 3, G)                 \* next bank
+           low == R(BB - 32768 + 7, 3, G)           \* lower bank (for units = bytes / 2 still below)
+       IN {<<r1, same>>, <<r1, next>>, <<r1, low>>, <<r1, next, low>>, <<r1, low, next>>}
+       : BB \in {B \div x : x \in {1, G}}} : d \in Deltas} : B \in Bounds, G \in GG}
+BoundaryOpts(f) ==
+  {[BaseO EXCEPT !.fmt = f, !.l = l, !.rel = a, !.reloc = rl] : l \in LineLens, a \in (IF Full THEN BOOLEAN ELSE {FALSE}),
+                                                                   rl \in (IF Full THEN {0, 65536} ELSE {0})}
+
 Windows(rs) ==
   LET lo == rs[1].start  hi == rs[Len(rs)].start + Len(rs[Len(rs)].data) \div rs[Len(rs)].gran - 1
   IN {<<-1, -1>>} \cup (IF hi - lo >= 2 THEN {<<lo + 1, hi - 1>>} ELSE {}) \cup (IF Full THEN {<<-1, hi - 1>>} ELSE {})
@@ -61,6 +82,8 @@ PerFmt(f, o, rs) ==
 CaseSpace ==
   UNION {UNION {UNION {{[recs |-> rs, fentry |-> fe, o |-> oo] : oo \in PerFmt(f, o, rs), fe \in {-1}} : o \in Common(f, rs)}
                 : rs \in RecSets(f)} : f \in Fmts}
+  \cup UNION {UNION {UNION {{[recs |-> rs, fentry |-> -1, o |-> oo] : oo \in PerFmt(f, o, rs)} : o \in BoundaryOpts(f)}
+                     : rs \in BoundarySets(f)} : f \in Fmts}
 
 \* cases with a definite outcome whose written addresses do not wrap below 0
 Admissible(cc) == Definite(cc) /\ TheFmt(cc) \in Fmts /\ ~AutoFails(cc, Devs) /\ \A kk \in Live(cc) : KeyLo(cc, kk) >= 0 /\ KeyHi(cc, kk) < BigAddr
@@ -71,7 +94,7 @@ Init == /\ c \in {cc \in CaseSpace : Admissible(cc)}
 
 BeginGroup ==
   /\ pc = "group" /\ k <= Len(c.recs)
-  /\ LET g0 == GroupOf(c, k, Devs) IN
+  /\ LET g0 == GroupOfL(c, k, st.loc, Devs) IN      \* the locals of ProcessFile() as the previous group left them
        IF ~g0.doit THEN k' = k + 1 /\ UNCHANGED <<c, pc, g, st>>
        ELSE LET p == Prologue(c, g0, st, Devs) IN g' = p.g /\ st' = p.st /\ pc' = "line" /\ UNCHANGED <<c, k>>
 DataLine ==
@@ -80,7 +103,7 @@ DataLine ==
   /\ UNCHANGED <<c, pc, k>>
 EndGroup ==
   /\ pc = "line" /\ g.el <= 0
-  /\ st' = Epilogue(c, g, st, Devs) /\ pc' = "group" /\ k' = k + 1 /\ g' = NoG /\ UNCHANGED c
+  /\ st' = GroupEnd(g, Epilogue(c, g, st, Devs)) /\ pc' = "group" /\ k' = k + 1 /\ g' = NoG /\ UNCHANGED c
 Terminate ==
   /\ pc = "group" /\ k > Len(c.recs)
   /\ st' = Finish(c, st, Devs) /\ pc' = "done" /\ UNCHANGED <<c, k, g>>
@@ -92,6 +115,13 @@ Fmt == TheFmt(c)
 InvLinesValid == \A i \in 1..Len(st.out) : LineValid(Fmt, st.out[i], c.o, pc = "done" /\ i = Len(st.out))
 \* finished text: structure (terminator, counts, entry) right and Decode(Emit(x)) = Selected(x)
 InvVerdict == pc = "done" => Verdict(c, st.out).ok
+\* the group prologue re-initialises the per-group locals whatever the previous group left behind
+InvGroupReset ==
+  (pc = "line" /\ g.pos = g.pos0 /\ Devs \cap CarryDevs = {}) =>
+     /\ (g.fmt = "INTEL32" => ~g.fb)
+     /\ g.gll = GrpLL(c.o, g.gran, g.fmt, g.mt, Devs)
+     /\ g.reccnt = (g.el0 + g.gll - 1) \div g.gll
+     /\ (g.fmt \in {"INTEL16", "INTEL32"} => g.io <= g.es /\ (g.es - g.io) * Scale(c, g.gran) < 65536)
 \* the pointwise comparison used by Verdict is the set equality of the property statement
 InvDecodeEquiv == pc = "done" /\ Representable(c, Fmt) =>
                     (DecodeMatches(c, Runs(Fmt, st.out, MulOf(c, Fmt))) <=> Decode(Fmt, st.out, MulOf(c, Fmt)) = Selected(c))
